@@ -12,7 +12,8 @@ pub fn run_c13(ctx: &mut Ctx) {
     let mut r = ctx.rng(13);
     let budget = ctx.budget;
     let rep = &mut ctx.rep;
-    rep.exhaustive = level >= 1;
+    rep.exhaustive = false;
+    rep.note("enumerated completely: num 0..65535 x more x szx 0..7 (encode/decode), all byte strings of <= 2 bytes (<= 3 at the thorough level), all ordered pairs of the interesting constructor sizes; random longer strings are sampled");
     set_case_str("C13 block values");
     // ---- encode/decode: num x more x szx
     let step = if level == 0 { 997 } else { 1 };
